@@ -12,6 +12,7 @@
 #include <stdio.h>
 #include <stdlib.h>
 #include <math.h>
+#include <float.h>
 #include <signal.h>
 #include <stdbool.h>
 #include <stddef.h>
